@@ -38,7 +38,7 @@ LEVEL_NOTE = "trusted: snapshot reader, reference ledger, own brute-force chunki
 
 
 def runs(tier, seed):
-    n = 24 if tier == "quick" else 1600
+    n = 24 if tier == "quick" else 500  # thorough bounded to <= 15 min on an idle 16-core box (~15 s CPU per history)
     return [Run("rbf", cases=n, params={"many_every": 3}, timeout=3000 if tier == "quick" else 16000)]
 
 
